@@ -61,6 +61,29 @@ def fold(prog, module, expr, env=None, depth=0):
             return op(a, b)
         except Exception as e:
             raise Unknown(str(e))
+    if isinstance(expr, ast.BoolOp):
+        vals = [fold(prog, module, v, env, depth + 1) for v in expr.values]
+        out = vals[0]
+        for v in vals[1:]:
+            out = (out and v) if isinstance(expr.op, ast.And) else (out or v)
+        return out
+    if isinstance(expr, ast.Compare):
+        cmpf = {ast.Eq: lambda a, b: a == b, ast.NotEq: lambda a, b: a != b,
+                ast.In: lambda a, b: a in b, ast.NotIn: lambda a, b: a not in b,
+                ast.Lt: lambda a, b: a < b, ast.LtE: lambda a, b: a <= b,
+                ast.Gt: lambda a, b: a > b, ast.GtE: lambda a, b: a >= b}
+        left = fold(prog, module, expr.left, env, depth + 1)
+        for op, right in zip(expr.ops, expr.comparators):
+            if type(op) not in cmpf:
+                raise Unknown('compare')
+            r = fold(prog, module, right, env, depth + 1)
+            try:
+                if not cmpf[type(op)](left, r):
+                    return False
+            except Exception as e:
+                raise Unknown(str(e))
+            left = r
+        return True
     if isinstance(expr, (ast.Tuple, ast.List)):
         vals = [fold(prog, module, e, env, depth + 1) for e in expr.elts]
         return tuple(vals) if isinstance(expr, ast.Tuple) else vals
@@ -100,7 +123,7 @@ def fold(prog, module, expr, env=None, depth=0):
                 raise Unknown(str(e))
         if isinstance(expr.func, ast.Attribute) and expr.func.attr in (
                 'encode', 'lower', 'upper', 'strip', 'join', 'format',
-                'replace') and not expr.keywords:
+                'replace', 'startswith', 'endswith') and not expr.keywords:
             base = fold(prog, module, expr.func.value, env, depth + 1)
             args = [fold(prog, module, a, env, depth + 1) for a in expr.args]
             try:
